@@ -762,7 +762,7 @@ func (f *Frame) evalConvert(x *ssa.Convert) Val {
 		if !ok1 || !ok2 {
 			return TopV{}
 		}
-		if s.L.IsConst() || widens(from, to) {
+		if s.L.IsConst() || widens(from, to) || f.e.NoWrap[f.fn] {
 			return s
 		}
 		return IntV{AtomLin(Op{"conv:" + to.Name(), []Lin{s.L}})}
@@ -921,6 +921,85 @@ func (f *Frame) dead(b *ssa.BasicBlock) bool {
 	return false
 }
 
+
+// iteLin: els + ite(cond, then-els, 0), with the condition negated when that makes the variable part
+// non-negative (a constant negative difference), so that sums of such terms stay sums of non-negative terms.
+func iteLin(op string, x, y, then, els Lin) Lin {
+	diff := then.Sub(els)
+	if diff.IsConst() && diff.C == 0 {
+		return els
+	}
+	if diff.IsConst() && diff.C < 0 {
+		neg := map[string]string{"==": "!=", "!=": "==", "<": ">=", ">=": "<", "<=": ">", ">": "<="}
+		if n, ok := neg[op]; ok {
+			return then.Add(AtomLin(Ite{n, x, y, diff.Scale(-1), Const(0)}))
+		}
+	}
+	return els.Add(AtomLin(Ite{op, x, y, diff, Const(0)}))
+}
+
+// mergeArms: the values va (reaching block `to` through predecessor pa) and vb (through pb) as one
+// if-then-else on the comparison that separates pa from pb.
+func (f *Frame) mergeArms(pa *ssa.BasicBlock, va Lin, pb *ssa.BasicBlock, vb Lin, to *ssa.BasicBlock) (Lin, bool) {
+	if pa == nil || pb == nil {
+		return Lin{}, false
+	}
+	// nearest block that dominates both predecessors
+	d := pa
+	for d != nil && !(d == pb || d.Dominates(pb)) {
+		d = d.Idom()
+	}
+	if d == nil || len(d.Instrs) == 0 {
+		return Lin{}, false
+	}
+	iff, ok := d.Instrs[len(d.Instrs)-1].(*ssa.If)
+	if !ok {
+		return Lin{}, false
+	}
+	cmp, ok := iff.Cond.(*ssa.BinOp)
+	if !ok {
+		return Lin{}, false
+	}
+	switch cmp.Op {
+	case token.EQL, token.NEQ, token.LSS, token.LEQ, token.GTR, token.GEQ:
+	default:
+		return Lin{}, false
+	}
+	x, ok1 := f.eval(cmp.X).(IntV)
+	y, ok2 := f.eval(cmp.Y).(IntV)
+	if !ok1 || !ok2 {
+		return Lin{}, false
+	}
+	xl, okx := f.resolveLin(x.L)
+	yl, oky := f.resolveLin(y.L)
+	if !okx || !oky {
+		return Lin{}, false
+	}
+	side := func(p *ssa.BasicBlock) int {
+		t, e := d.Succs[0], d.Succs[1]
+		switch {
+		case p == d && t == to:
+			return 0
+		case p == d && e == to:
+			return 1
+		case t != to && (t == p || t.Dominates(p)) && len(t.Preds) == 1:
+			return 0
+		case e != to && (e == p || e.Dominates(p)) && len(e.Preds) == 1:
+			return 1
+		}
+		return -1
+	}
+	sa, sb := side(pa), side(pb)
+	if sa < 0 || sb < 0 || sa == sb {
+		return Lin{}, false
+	}
+	then, els := va, vb
+	if sa == 1 {
+		then, els = vb, va
+	}
+	return iteLin(cmp.Op.String(), xl, yl, then, els), true
+}
+
 // iteOf: a two-way merge of integers controlled by a comparison of symbolic integers.
 func (f *Frame) iteOf(phi *ssa.Phi) Val {
 	b := phi.Block()
@@ -979,7 +1058,9 @@ func (f *Frame) iteOf(phi *ssa.Phi) Val {
 	if s0 == 1 {
 		then, els = v1.L, v0.L
 	}
-	return IntV{AtomLin(Ite{cmp.Op.String(), x.L, y.L, then, els})}
+	// normal form: the common part is pulled out, Else + ite(cond, Then-Else, 0), so that an accumulator
+	// updated in both arms (n++ / n += 2) keeps a unit coefficient
+	return IntV{iteLin(cmp.Op.String(), x.L, y.L, then, els)}
 }
 
 func linOf(v Val) (Lin, bool) {
@@ -1009,6 +1090,7 @@ func (f *Frame) solve(phi *ssa.Phi) (Lin, bool) {
 		return fail()
 	}
 	var init, delta *Lin
+	var deltaPred *ssa.BasicBlock
 	self := Acc{phi}.key(nil)
 	for i, pred := range phi.Block().Preds {
 		if li.blocks[pred] && f.deadEdge(pred, phi.Block()) {
@@ -1029,9 +1111,14 @@ func (f *Frame) solve(phi *ssa.Phi) (Lin, bool) {
 				return fail()
 			}
 			if delta != nil && !delta.Equal(d) {
-				return fail()
+				// two latches with different steps: the two arms of a branch on a comparison
+				m, okm := f.mergeArms(deltaPred, *delta, pred, d, phi.Block())
+				if !okm {
+					return fail()
+				}
+				d = m
 			}
-			delta = &d
+			delta, deltaPred = &d, pred
 		} else {
 			l, ok = f.resolveLin(l)
 			if !ok {
